@@ -6,6 +6,8 @@ import (
 	"go/token"
 	"go/types"
 
+	"golang.org/x/tools/go/cfg"
+
 	"gnetlint/core"
 	"gnetlint/flow"
 )
@@ -700,4 +702,260 @@ func runC14_12(c *core.Ctx) {
 			c.Violate(f.Name, "store of the connection", f.Decl.Pos(), "addConn stores no connection into the table")
 		}
 	}
+}
+
+func init() {
+	register(&core.Rule{ID: "C14.13", Prop: "C14", MinSites: 3, Applies: func(c core.Config) bool { return c.HasTag("gc_opt") },
+		Desc: "the matrix registry's plumbing (gc_opt build, which the test suite does not compile): init allocates the reverse index fd2gfd; loadCount adds up an atomic load of every element of connCounts (a loop from 0 to its length, or a range over it) into the value it returns; iterate calls the visitor on the cell of the current step only where that cell is not nil, does so on every path of a step whose cell is not nil, and ends before the table is exhausted only where the visitor answered false",
+		Run:  runC14_13})
+}
+
+func runC14_13(c *core.Ctx) {
+	a := regAnchors(c)
+	if a == nil || !a.gc {
+		return
+	}
+	counts := c.P.Field("", "connMatrix", "connCounts")
+	if !c.Need("connMatrix.connCounts", counts) {
+		return
+	}
+	// init
+	if f := getFn(c, "", "connMatrix.init"); f != nil {
+		okInit := false
+		ast.Inspect(f.Decl.Body, func(n ast.Node) bool {
+			if as, ok := n.(*ast.AssignStmt); ok && len(as.Lhs) == len(as.Rhs) {
+				for k, l := range as.Lhs {
+					if flow.FieldOf(f.Info, l) == a.fd2gfd && isMakeCall(f, as.Rhs[k]) {
+						okInit = true
+					}
+				}
+			}
+			return true
+		})
+		c.Check(okInit, f.Name, "fd2gfd allocated", f.Decl.Pos(), "make(map…)", "connMatrix.init no longer allocates the reverse index fd2gfd: the first addConn writes into a nil map and the event loop panics")
+	}
+	// loadCount
+	if f := getFn(c, "", "connMatrix.loadCount"); f != nil {
+		var res types.Object
+		if rl := f.Decl.Type.Results; rl != nil && len(rl.List) == 1 && len(rl.List[0].Names) == 1 {
+			res = f.Info.Defs[rl.List[0].Names[0]]
+		}
+		okLoop, okAcc := false, false
+		var idx types.Object
+		var elemVar types.Object
+		ast.Inspect(f.Decl.Body, func(n ast.Node) bool {
+			switch y := n.(type) {
+			case *ast.ForStmt:
+				if init, ok := y.Init.(*ast.AssignStmt); ok && len(init.Lhs) == 1 && len(init.Rhs) == 1 {
+					if cv := flow.ConstOf(f.Info, init.Rhs[0]); cv != nil && constant.Sign(cv) == 0 {
+						if x, yy, op, ok := flow.Cmp(y.Cond); ok && op == token.LSS && flow.ObjOf(f.Info, x) == flow.ObjOf(f.Info, init.Lhs[0]) {
+							if call, ok := seeThrough(f, yy).(*ast.CallExpr); ok && len(call.Args) == 1 && flow.FieldOf(f.Info, call.Args[0]) == counts {
+								if post, ok := y.Post.(*ast.IncDecStmt); ok && post.Tok == token.INC && flow.ObjOf(f.Info, post.X) == flow.ObjOf(f.Info, init.Lhs[0]) {
+									okLoop, idx = true, flow.ObjOf(f.Info, init.Lhs[0])
+								}
+							}
+						}
+					}
+				}
+			case *ast.RangeStmt:
+				if flow.FieldOf(f.Info, y.X) == counts {
+					okLoop = true
+					if y.Key != nil {
+						idx = flow.ObjOf(f.Info, y.Key)
+					}
+					if y.Value != nil {
+						elemVar = flow.ObjOf(f.Info, y.Value)
+					}
+				}
+			}
+			return true
+		})
+		ast.Inspect(f.Decl.Body, func(n ast.Node) bool {
+			as, ok := n.(*ast.AssignStmt)
+			if !ok || as.Tok != token.ADD_ASSIGN || len(as.Lhs) != 1 {
+				return true
+			}
+			call, ok := ast.Unparen(as.Rhs[0]).(*ast.CallExpr)
+			if !ok || !flow.IsPkgFunc(f.Info, call, "sync/atomic", "LoadInt32") || len(call.Args) != 1 {
+				return true
+			}
+			ie, ok := ast.Unparen(stripAddr(call.Args[0])).(*ast.IndexExpr)
+			if ok && flow.FieldOf(f.Info, ie.X) == counts && idx != nil && flow.ObjOf(f.Info, ie.Index) == idx {
+				okAcc = true
+			}
+			_ = elemVar
+			return true
+		})
+		// the accumulator is what is returned
+		retOK := res != nil
+		if res == nil {
+			for _, b := range f.Graph().Exits() {
+				if len(b.Return.Results) == 1 {
+					retOK = true
+				}
+			}
+		}
+		c.Check(okLoop && okAcc && retOK, f.Name, "sum over every row counter", f.Decl.Pos(), "loop over connCounts adding an atomic load of each element",
+			"loadCount no longer adds up an atomic load of every element of connCounts: the loop's connection count – what CountConnections and the least-connections policy read – is not the number of registered connections")
+	}
+	// iterate
+	f := a.iter
+	visitor := f.param(0)
+	var inner *ast.RangeStmt
+	ast.Inspect(f.Decl.Body, func(n ast.Node) bool {
+		if rs, ok := n.(*ast.RangeStmt); ok {
+			for _, call := range callsIn(rs.Body, false) {
+				if flow.ObjOf(f.Info, call.Fun) == types.Object(visitor) {
+					inner = rs // inner loops are visited later and win
+				}
+			}
+		}
+		return true
+	})
+	if inner == nil || inner.Value == nil {
+		c.Violate(f.Name, "visitor call in the cell loop", f.Decl.Pos(), "iterate has no range loop that calls the visitor with its element")
+		return
+	}
+	cell := flow.ObjOf(f.Info, inner.Value)
+	const (
+		fNonNil = 1 << iota
+		fEnd // the walk may end here: table exhausted, or the visitor answered false
+	)
+	g := f.Graph()
+	var outer ast.Stmt
+	ast.Inspect(f.Decl.Body, func(n ast.Node) bool {
+		var lb *ast.BlockStmt
+		switch y := n.(type) {
+		case *ast.RangeStmt:
+			if y != inner {
+				lb = y.Body
+			}
+		case *ast.ForStmt:
+			lb = y.Body
+		}
+		if lb != nil && outer == nil {
+			contains := false
+			ast.Inspect(lb, func(m ast.Node) bool {
+				if m == ast.Node(inner) {
+					contains = true
+				}
+				return true
+			})
+			if contains {
+				outer = n.(ast.Stmt)
+			}
+		}
+		return true
+	})
+	p := &flow.Problem{Must: true}
+	p.Node = func(b *flow.Block, i int, n ast.Node, in uint64) uint64 {
+		for _, call := range flow.Calls(n) {
+			if flow.ObjOf(f.Info, call.Fun) == types.Object(visitor) {
+				in &^= fEnd
+			}
+		}
+		return in
+	}
+	p.Edge = func(e *flow.Edge, in uint64) uint64 {
+		if e.To.Stmt == ast.Stmt(inner) && e.To.Kind == cfg.KindRangeBody {
+			in &^= fNonNil
+		}
+		if e.Cond != nil && e.Tag == nil {
+			if x, y, op, ok := flow.Cmp(e.Cond); ok && flow.ObjOf(f.Info, x) == cell && flow.IsNil(f.Info, y) {
+				if (op == token.NEQ) == e.Sense {
+					in |= fNonNil
+				}
+			}
+			if call, ok := seeThroughAt(f, e.Cond, e.Cond).(*ast.CallExpr); ok && flow.ObjOf(f.Info, call.Fun) == types.Object(visitor) {
+				if e.Sense {
+					in &^= fEnd
+				} else {
+					in |= fEnd
+				}
+			}
+		}
+		if e.Cond == nil && e.From.Kind == cfg.KindRangeLoop && e.To.Kind == cfg.KindRangeDone && (e.From.Stmt == outer || (outer == nil && e.From.Stmt == ast.Stmt(inner))) {
+			in |= fEnd
+		}
+		if fs, isFor := outer.(*ast.ForStmt); isFor && fs.Cond != nil && e.Cond != nil && !e.Sense && e.Cond.Pos() >= fs.Cond.Pos() && e.Cond.End() <= fs.Cond.End() {
+			in |= fEnd // the counted outer loop ran out
+		}
+		return in
+	}
+	sol := g.Solve(p)
+	k := 0
+	sol.Walk(func(b *flow.Block, i int, n ast.Node, before uint64) {
+		for _, call := range flow.Calls(n) {
+			if flow.ObjOf(f.Info, call.Fun) == types.Object(visitor) {
+				k++
+				c.Check(len(call.Args) == 1 && flow.ObjOf(f.Info, call.Args[0]) == cell && before&fNonNil != 0, f.Name, "visitor call #"+itoa(k), call.Pos(), "the current cell, established non-nil",
+					"iterate hands the visitor something other than the current cell, or a cell that may be nil: closeConns would close a nil connection (the loop panics) or skip the live one")
+			}
+		}
+	})
+	okEnd := true
+	sol.AtExit(func(b *flow.Block, facts uint64) {
+		if facts&fEnd == 0 {
+			okEnd = false
+		}
+	})
+	c.Check(okEnd, f.Name, "end of the walk", f.Decl.Pos(), "table exhausted or visitor answered false", "iterate can return before the table is exhausted although the visitor did not ask for it (or goes on after the visitor answered false): the shutdown sweep leaves connections registered")
+	// every non-nil cell reaches the visitor: on the non-nil edge the call is a must before the step ends
+	const fCalled = 1
+	q := &flow.Problem{Must: true}
+	q.Node = func(b *flow.Block, i int, n ast.Node, in uint64) uint64 {
+		for _, call := range flow.Calls(n) {
+			if flow.ObjOf(f.Info, call.Fun) == types.Object(visitor) {
+				in |= fCalled
+			}
+		}
+		return in
+	}
+	q.Edge = func(e *flow.Edge, in uint64) uint64 {
+		if e.To.Stmt == ast.Stmt(inner) && e.To.Kind == cfg.KindRangeBody {
+			return 0
+		}
+		if e.Cond != nil && e.Tag == nil {
+			if x, y, op, ok := flow.Cmp(e.Cond); ok && flow.ObjOf(f.Info, x) == cell && flow.IsNil(f.Info, y) && (op == token.EQL) == e.Sense {
+				in |= fCalled // an empty cell: nothing to visit
+			}
+		}
+		return in
+	}
+	qs := g.Solve(q)
+	// the blocks of one step: reachable from the inner loop's body block without passing the inner loop's own head/done blocks
+	inStep := map[*flow.Block]bool{}
+	var work []*flow.Block
+	for _, b := range g.Blocks {
+		if b.Stmt == ast.Stmt(inner) && b.Kind == cfg.KindRangeBody {
+			inStep[b] = true
+			work = append(work, b)
+		}
+	}
+	for len(work) > 0 {
+		b := work[len(work)-1]
+		work = work[:len(work)-1]
+		for _, e := range b.Succs {
+			own := e.To.Stmt == ast.Stmt(inner) && (e.To.Kind == cfg.KindRangeLoop || e.To.Kind == cfg.KindRangeDone)
+			if !inStep[e.To] && !own {
+				inStep[e.To] = true
+				work = append(work, e.To)
+			}
+		}
+	}
+	okAll, backs := true, 0
+	for _, b := range g.Blocks {
+		if !qs.Seen[b.ID] || !inStep[b] {
+			continue
+		}
+		for _, e := range b.Succs {
+			if e.To.Stmt == ast.Stmt(inner) && e.To.Kind == cfg.KindRangeLoop {
+				backs++
+				if qs.Out(b)&fCalled == 0 {
+					okAll = false
+				}
+			}
+		}
+	}
+	c.Check(okAll && backs > 0, f.Name, "every live cell visited", inner.Pos(), "a step whose cell is not nil calls the visitor", "a step of iterate can move on to the next cell without having called the visitor although the cell was not nil: that connection is skipped by the shutdown sweep and by everything else built on iterate")
 }
